@@ -636,7 +636,7 @@ func evaluateUnary(operator token.Token, right interface{}) interface{} {
 			utils.RuntimeError(operator, err.Error())
 			return nil
 		}
-		return ^value
+		return intResult(^value)
 
 	default:
 		utils.RuntimeError(operator, "Unknown unary operator: "+operator.Lexeme)
@@ -795,27 +795,38 @@ func handleBitwise(left, right interface{}, operator token.Token) interface{} {
 
 	switch operator.Type {
 	case token.AND:
-		return leftInt & rightInt
+		return intResult(leftInt & rightInt)
 	case token.OR:
-		return leftInt | rightInt
+		return intResult(leftInt | rightInt)
 	case token.XOR:
-		return leftInt ^ rightInt
+		return intResult(leftInt ^ rightInt)
 	case token.LEFT_SHIFT:
 		if rightInt < 0 {
 			utils.RuntimeError(operator, "Shift count must not be negative.")
 			return nil
 		}
-		return leftInt << rightInt
+		return intResult(leftInt << rightInt)
 	case token.RIGHT_SHIFT:
 		if rightInt < 0 {
 			utils.RuntimeError(operator, "Shift count must not be negative.")
 			return nil
 		}
-		return leftInt >> rightInt
+		return intResult(leftInt >> rightInt)
 	case token.POWER:
 		return int64(math.Pow(float64(leftInt), float64(rightInt)))
 	}
 	return nil
+}
+
+// intResult turns the int64 result of a bitwise operator into an ordinary number whenever a float64
+// holds it exactly, so that it prints, concatenates and compares like the same number written as a
+// literal (1 << 20 used to print 1048576 while 1048576 prints 1.048576e+06). Only results beyond
+// 2^53 that a float64 cannot represent stay int64.
+func intResult(v int64) interface{} {
+	if f := float64(v); f < 9.223372036854775807e18 && int64(f) == v {
+		return f
+	}
+	return v
 }
 
 // Helper functions for type conversions
